@@ -827,7 +827,7 @@ theorem evalArgs_answer {cfg : EvCfg} {disp : List Str → Dispatch} {beh : Str 
 
 /-! ### the disabled-commands store: what a history of add / remove leaves behind -/
 
-theorem lookupK_setK (d : Disabled) (k k' : Str) (v : Option (List Str)) :
+theorem lookupK_setK (d : Disabled) (k k' : Str) (v : Bool × List Str) :
     lookupK (setK d k v) k' = if k' = k then some v else lookupK d k' := by
   induction d with
   | nil =>
@@ -871,55 +871,32 @@ theorem lookupK_delK (d : Disabled) (k k' : Str) :
         have e1 : ∀ l, lookupK ((ke, ve) :: l) k' = lookupK l k' := by intro l; simp [lookupK, h2]
         rw [e1, e1, ih]
 
-/-- `isDisabled` read off the store entry of the canonical command name -/
-def disabledK (d : Disabled) (k p : Str) : Bool :=
-  match lookupK d k with
-  | none => false
-  | some none => true
-  | some (some ps) => ps.contains p
+/-- the two things the store says about a command: disabled everywhere / disabled in plugin `p` -/
+def evK (d : Disabled) (k : Str) : Bool := ((lookupK d k).getD (false, [])).1
+def forK (d : Disabled) (k p : Str) : Bool := ((lookupK d k).getD (false, [])).2.contains p
+
+def disabledK (d : Disabled) (k p : Str) : Bool := evK d k || forK d k p
 
 theorem isDisabled_eq (d : Disabled) (command plugin : Str) :
     isDisabled d command plugin = disabledK d (canonicalName command) (canonicalName plugin) := by
-  unfold isDisabled disabledK lookupK
+  unfold isDisabled disabledK evK forK lookupK
   cases d.find? (fun e => e.1 = canonicalName command) with
   | none => rfl
-  | some e => obtain ⟨_, v⟩ := e; cases v <;> rfl
+  | some e => obtain ⟨_, ev, ps⟩ := e; rfl
 
-/-- operations on canonical names: `add(c)`, `add(c, p)`, `remove(c)`, `remove(c, p)`; a KeyError leaves the store as it is -/
-inductive SOp where
-  | disableAll (c : Str) | disableFor (p c : Str) | enableAll (c : Str) | enableFor (p c : Str)
-
-def stepK (d : Disabled) : SOp → Disabled
-  | .disableAll c => setK d c none
-  | .disableFor p c =>
-    match lookupK d c with
-    | none => setK d c (some [p])
-    | some none => d
-    | some (some ps) => setK d c (some (if ps.contains p then ps else ps ++ [p]))
-  | .enableAll c => if (lookupK d c).isSome then delK d c else d
-  | .enableFor p c =>
-    match lookupK d c with
-    | none => d
-    | some none => d
-    | some (some ps) => if ps.contains p then setK d c (some (ps.filter fun q => q ≠ p)) else d
-
-/-- what the history (most recent operation first) says about plugin `p` and command `c`:
-the last `disable c` / `enable c` settles it for every plugin (`enable c` also erases every per-plugin
-entry); after an `enable c` (or from the start) the last operation about exactly `(p, c)` settles it;
-while `c` is disabled everywhere the per-plugin operations change nothing -/
-def says (p c : Str) : List SOp → Bool
-  | [] => false
-  | .disableAll c' :: rest => if c' = c then true else says p c rest
-  | .enableAll c' :: rest => if c' = c then false else says p c rest
-  | .disableFor p' c' :: rest => if c' = c ∧ p' = p then true else says p c rest
-  | .enableFor p' c' :: rest => if c' = c ∧ p' = p then globally c rest else says p c rest
-where
-  /-- `c` is disabled everywhere: the last global operation about it is a disable -/
-  globally (c : Str) : List SOp → Bool
-    | [] => false
-    | .disableAll c' :: rest => if c' = c then true else globally c rest
-    | .enableAll c' :: rest => if c' = c then false else globally c rest
-    | _ :: rest => globally c rest
+/-- an entry that says nothing is as good as no entry -/
+theorem obs_finK (d : Disabled) (k : Str) (e : Bool × List Str) (k' : Str) :
+    (lookupK (finK d k e) k').getD (false, []) = (lookupK (setK d k e) k').getD (false, []) := by
+  unfold finK
+  obtain ⟨ev, ps⟩ := e
+  by_cases h : (!ev && ps.isEmpty) = true
+  · rw [if_pos h, lookupK_delK, lookupK_setK]
+    by_cases hk : k' = k
+    · simp only [hk, if_true, Option.getD_none, Option.getD_some]
+      simp only [Bool.and_eq_true, Bool.not_eq_true', List.isEmpty_iff] at h
+      rw [h.1, h.2]
+    · simp [hk]
+  · rw [if_neg h]
 
 theorem contains_filter_ne (ps : List Str) (p q : Str) :
     (ps.filter fun x => x ≠ p).contains q = (ps.contains q && q ≠ p) := by
@@ -929,178 +906,185 @@ theorem contains_filter_ne (ps : List Str) (p q : Str) :
     by_cases h : a = p
     · subst h
       by_cases hq : q = a
-      · subst hq; simp [List.filter, ih]
-      · have : ¬ a = q := fun e => hq e.symm
-        simp [List.filter, ih, hq, this]
+      · subst hq; simp [List.filter]
+      · simp [List.filter, ih, hq]
     · by_cases hq : q = a
       · subst hq; simp [List.filter, h]
       · simp [List.filter, h, ih, hq]
 
-/-- one step: the entry of `c` after an operation, in terms of the entry before -/
-theorem disabledK_step (d : Disabled) (op : SOp) (p c : Str) :
-    disabledK (stepK d op) c p =
-      match op with
-      | .disableAll c' => if c = c' then true else disabledK d c p
-      | .enableAll c' => if c = c' then false else disabledK d c p
-      | .disableFor p' c' => if c = c' ∧ p = p' then true else disabledK d c p
-      | .enableFor p' c' => if c = c' ∧ p = p' then (lookupK d c == some none) else disabledK d c p := by
-  cases op with
-  | disableAll c' =>
-    simp only [stepK, disabledK, lookupK_setK]
-    by_cases h : c = c' <;> simp [h]
-  | enableAll c' =>
-    simp only [stepK]
-    by_cases hs : (lookupK d c').isSome
-    · simp only [hs, if_true, disabledK, lookupK_delK]
-      by_cases h : c = c' <;> simp [h]
-    · simp only [hs, Bool.false_eq_true, if_false]
-      by_cases h : c = c'
-      · subst h
-        have : lookupK d c = none := by simpa using hs
-        simp [disabledK, this]
-      · simp [h]
-  | disableFor p' c' =>
-    simp only [stepK]
-    by_cases h : c = c'
-    · subst h
-      cases hl : lookupK d c with
-      | none =>
-        simp only [disabledK, lookupK_setK, hl, if_true]
-        by_cases hp : p = p' <;> simp [hp]
-      | some v =>
-        cases v with
-        | none => simp [disabledK, hl]
-        | some ps =>
-          simp only [disabledK, lookupK_setK, hl, if_true]
-          by_cases hp : p = p'
-          · subst hp
-            by_cases hc : p ∈ ps <;> simp [hc]
-          · by_cases hc : p' ∈ ps <;> simp [hc, hp]
-    · cases hl : lookupK d c' with
-      | none => simp [disabledK, lookupK_setK, h]
-      | some v => cases v <;> simp [disabledK, lookupK_setK, h]
-  | enableFor p' c' =>
-    simp only [stepK]
-    by_cases h : c = c'
-    · subst h
-      cases hl : lookupK d c with
-      | none => simp [disabledK, hl]
-      | some v =>
-        cases v with
-        | none => simp [disabledK, hl]
-        | some ps =>
-          by_cases hc : ps.contains p'
-          · simp only [hc, if_true, disabledK, lookupK_setK, hl, contains_filter_ne]
-            by_cases hp : p = p'
-            · subst hp; simp
-            · simp [hp]
-          · simp only [hc, Bool.false_eq_true, if_false, disabledK, hl]
-            by_cases hp : p = p'
-            · subst hp; simpa using hc
-            · simp [hp]
-    · cases hl : lookupK d c' with
-      | none => simp [disabledK, h]
-      | some v =>
-        cases v with
-        | none => simp [disabledK, h]
-        | some ps =>
-          by_cases hc : ps.contains p' = true
-          · simp only [hc, if_true, disabledK, lookupK_setK, h, if_false]
-            simp [h]
-          · simp only [hc, Bool.false_eq_true, if_false, disabledK]
-            simp [h]
+/-- operations on canonical names: `add(c)`, `add(c, p)`, `remove(c)`, `remove(c, p)`; a KeyError leaves the store as it is -/
+inductive SOp where
+  | disableAll (c : Str) | disableFor (p c : Str) | enableAll (c : Str) | enableFor (p c : Str)
 
-def isGlobalK (d : Disabled) (c : Str) : Bool := lookupK d c == some none
+def stepK (d : Disabled) : SOp → Disabled
+  | .disableAll c => setK d c (true, ((lookupK d c).getD (false, [])).2)
+  | .disableFor p c =>
+    let e := (lookupK d c).getD (false, [])
+    setK d c (e.1, if e.2.contains p then e.2 else e.2 ++ [p])
+  | .enableAll c =>
+    match lookupK d c with
+    | some (true, ps) => finK d c (false, ps)
+    | _ => d
+  | .enableFor p c =>
+    match lookupK d c with
+    | some (ev, ps) => if ps.contains p then finK d c (ev, ps.filter fun q => q ≠ p) else d
+    | none => d
 
-theorem isGlobalK_step (d : Disabled) (op : SOp) (c : Str) :
-    isGlobalK (stepK d op) c =
+/-- every operation is a plain update of one of the two observations: nothing else changes -/
+theorem evK_step (d : Disabled) (op : SOp) (k : Str) :
+    evK (stepK d op) k =
       match op with
-      | .disableAll c' => if c = c' then true else isGlobalK d c
-      | .enableAll c' => if c = c' then false else isGlobalK d c
-      | .disableFor _ _ => isGlobalK d c
-      | .enableFor _ _ => isGlobalK d c := by
+      | .disableAll c => if k = c then true else evK d k
+      | .enableAll c => if k = c then false else evK d k
+      | .disableFor _ _ => evK d k
+      | .enableFor _ _ => evK d k := by
   cases op with
-  | disableAll c' =>
-    simp only [stepK, isGlobalK, lookupK_setK]
-    by_cases h : c = c' <;> simp [h]
-  | enableAll c' =>
+  | disableAll c =>
+    simp only [stepK, evK, lookupK_setK]
+    by_cases h : k = c <;> simp [h]
+  | disableFor p c =>
+    simp only [stepK, evK, lookupK_setK]
+    by_cases h : k = c
+    · subst h; simp
+    · simp [h]
+  | enableAll c =>
     simp only [stepK]
-    by_cases hs : (lookupK d c').isSome
-    · simp only [hs, if_true, isGlobalK, lookupK_delK]
-      by_cases h : c = c' <;> simp [h]
-    · simp only [hs, Bool.false_eq_true, if_false]
-      by_cases h : c = c'
-      · subst h
-        have : lookupK d c = none := by simpa using hs
-        simp [isGlobalK, this]
-      · simp [h]
-  | disableFor p' c' =>
-    simp only [stepK]
-    cases hl : lookupK d c' with
+    cases hl : lookupK d c with
     | none =>
-      simp only [isGlobalK, lookupK_setK]
-      by_cases h : c = c'
-      · subst h; simp [hl]
+      by_cases h : k = c
+      · subst h; simp [evK, hl]
       · simp [h]
-    | some v =>
-      cases v with
-      | none => rfl
-      | some ps =>
-        simp only [isGlobalK, lookupK_setK]
-        by_cases h : c = c'
+    | some e =>
+      obtain ⟨ev, ps⟩ := e
+      cases ev with
+      | true =>
+        simp only [evK, obs_finK, lookupK_setK]
+        by_cases h : k = c <;> simp [h]
+      | false =>
+        by_cases h : k = c
+        · subst h; simp [evK, hl]
+        · simp [h]
+  | enableFor p c =>
+    simp only [stepK]
+    cases hl : lookupK d c with
+    | none => rfl
+    | some e =>
+      obtain ⟨ev, ps⟩ := e
+      by_cases hc : ps.contains p = true
+      · simp only [hc, if_true, evK, obs_finK, lookupK_setK]
+        by_cases h : k = c
         · subst h; simp [hl]
         · simp [h]
-  | enableFor p' c' =>
+      · simp only [hc, Bool.false_eq_true, if_false]
+
+theorem forK_step (d : Disabled) (op : SOp) (k q : Str) :
+    forK (stepK d op) k q =
+      match op with
+      | .disableAll _ => forK d k q
+      | .enableAll _ => forK d k q
+      | .disableFor p c => if k = c ∧ q = p then true else forK d k q
+      | .enableFor p c => if k = c ∧ q = p then false else forK d k q := by
+  cases op with
+  | disableAll c =>
+    simp only [stepK, forK, lookupK_setK]
+    by_cases h : k = c
+    · subst h; simp
+    · simp [h]
+  | disableFor p c =>
+    simp only [stepK, forK, lookupK_setK]
+    by_cases h : k = c
+    · subst h
+      simp only [if_true, Option.getD_some, true_and]
+      by_cases hq : q = p
+      · subst hq; by_cases hc : q ∈ ((lookupK d k).getD (false, [])).2 <;> simp [hc]
+      · by_cases hc : p ∈ ((lookupK d k).getD (false, [])).2 <;> simp [hc, hq]
+    · simp [h]
+  | enableAll c =>
     simp only [stepK]
-    cases hl : lookupK d c' with
+    cases hl : lookupK d c with
     | none => rfl
-    | some v =>
-      cases v with
-      | none => rfl
-      | some ps =>
-        by_cases hc : ps.contains p' = true
-        · simp only [hc, if_true, isGlobalK, lookupK_setK]
-          by_cases h : c = c'
-          · subst h; simp [hl]
-          · simp [h]
-        · simp only [hc, Bool.false_eq_true, if_false]
+    | some e =>
+      obtain ⟨ev, ps⟩ := e
+      cases ev with
+      | true =>
+        simp only [forK, obs_finK, lookupK_setK]
+        by_cases h : k = c
+        · subst h; simp [hl]
+        · simp [h]
+      | false => rfl
+  | enableFor p c =>
+    simp only [stepK]
+    cases hl : lookupK d c with
+    | none =>
+      by_cases h : k = c ∧ q = p
+      · obtain ⟨rfl, rfl⟩ := h; simp [forK, hl]
+      · simp [h]
+    | some e =>
+      obtain ⟨ev, ps⟩ := e
+      by_cases hc : ps.contains p = true
+      · simp only [hc, if_true, forK, obs_finK, lookupK_setK]
+        by_cases h : k = c
+        · subst h
+          simp only [if_true, Option.getD_some, contains_filter_ne, hl, true_and]
+          by_cases hq : q = p
+          · subst hq; simp
+          · simp [hq]
+        · simp [h]
+      · simp only [hc, Bool.false_eq_true, if_false]
+        by_cases h : k = c ∧ q = p
+        · obtain ⟨rfl, rfl⟩ := h
+          simp only [forK, hl, Option.getD_some, and_self, if_true]
+          simpa using hc
+        · simp [h]
 
 /-- the store after a history of operations (most recent first), starting from the empty store -/
 def runK : List SOp → Disabled
   | [] => []
   | op :: rest => stepK (runK rest) op
 
-theorem isGlobalK_run (c : Str) : ∀ h : List SOp, isGlobalK (runK h) c = says.globally c h
-  | [] => rfl
-  | op :: rest => by
-    have ih := isGlobalK_run c rest
-    rw [runK, isGlobalK_step]
-    cases op with
-    | disableAll c' => simp only [says.globally, ih]; by_cases h : c = c' <;> simp [h, eq_comm]
-    | enableAll c' => simp only [says.globally, ih]; by_cases h : c = c' <;> simp [h, eq_comm]
-    | disableFor p' c' => simp only [says.globally, ih]
-    | enableFor p' c' => simp only [says.globally, ih]
+/-- the last `disable c` / `enable c` (no plugin) in the history, most recent first, is a disable -/
+def saysAll (c : Str) : List SOp → Bool
+  | [] => false
+  | .disableAll c' :: rest => if c' = c then true else saysAll c rest
+  | .enableAll c' :: rest => if c' = c then false else saysAll c rest
+  | _ :: rest => saysAll c rest
 
-theorem disabledK_run (p c : Str) : ∀ h : List SOp, disabledK (runK h) c p = says p c h
+/-- the last `disable p c` / `enable p c` in the history is a disable -/
+def saysFor (p c : Str) : List SOp → Bool
+  | [] => false
+  | .disableFor p' c' :: rest => if c' = c ∧ p' = p then true else saysFor p c rest
+  | .enableFor p' c' :: rest => if c' = c ∧ p' = p then false else saysFor p c rest
+  | _ :: rest => saysFor p c rest
+
+theorem evK_run (c : Str) : ∀ h : List SOp, evK (runK h) c = saysAll c h
   | [] => rfl
   | op :: rest => by
-    have ih := disabledK_run p c rest
-    rw [runK, disabledK_step]
+    have ih := evK_run c rest
+    rw [runK, evK_step]
     cases op with
-    | disableAll c' => simp only [says, ih]; by_cases h : c = c' <;> simp [h, eq_comm]
-    | enableAll c' => simp only [says, ih]; by_cases h : c = c' <;> simp [h, eq_comm]
+    | disableAll c' => simp only [saysAll, ih]; by_cases h : c = c' <;> simp [h, eq_comm]
+    | enableAll c' => simp only [saysAll, ih]; by_cases h : c = c' <;> simp [h, eq_comm]
+    | disableFor p' c' => simp only [saysAll, ih]
+    | enableFor p' c' => simp only [saysAll, ih]
+
+theorem forK_run (p c : Str) : ∀ h : List SOp, forK (runK h) c p = saysFor p c h
+  | [] => rfl
+  | op :: rest => by
+    have ih := forK_run p c rest
+    rw [runK, forK_step]
+    cases op with
+    | disableAll c' => simp only [saysFor, ih]
+    | enableAll c' => simp only [saysFor, ih]
     | disableFor p' c' =>
-      simp only [says, ih]
+      simp only [saysFor, ih]
       by_cases h : c = c' ∧ p = p'
       · obtain ⟨rfl, rfl⟩ := h; simp
       · have : ¬ (c' = c ∧ p' = p) := fun ⟨a, b⟩ => h ⟨a.symm, b.symm⟩
         simp [h, this]
     | enableFor p' c' =>
-      simp only [says, ih]
+      simp only [saysFor, ih]
       by_cases h : c = c' ∧ p = p'
-      · obtain ⟨rfl, rfl⟩ := h
-        simp only [and_self, if_true]
-        exact isGlobalK_run c rest
+      · obtain ⟨rfl, rfl⟩ := h; simp
       · have : ¬ (c' = c ∧ p' = p) := fun ⟨a, b⟩ => h ⟨a.symm, b.symm⟩
         simp [h, this]
 
@@ -1109,13 +1093,7 @@ theorem add_eq_step (d : Disabled) (command : Str) (plugin : Option Str) :
     d.add command plugin = stepK d (match plugin with
       | none => .disableAll (canonicalName command)
       | some p => .disableFor (canonicalName p) (canonicalName command)) := by
-  cases plugin with
-  | none => rfl
-  | some p =>
-    simp only [Disabled.add, stepK]
-    cases lookupK d (canonicalName command) with
-    | none => rfl
-    | some v => cases v <;> rfl
+  cases plugin <;> rfl
 
 theorem remove_eq_step (d : Disabled) (command : Str) (plugin : Option Str) :
     (d.remove command plugin).getD d = stepK d (match plugin with
@@ -1124,13 +1102,113 @@ theorem remove_eq_step (d : Disabled) (command : Str) (plugin : Option Str) :
   cases plugin with
   | none =>
     simp only [Disabled.remove, stepK]
-    split <;> simp
+    cases lookupK d (canonicalName command) with
+    | none => rfl
+    | some e => obtain ⟨ev, ps⟩ := e; cases ev <;> rfl
   | some p =>
     simp only [Disabled.remove, stepK]
     cases lookupK d (canonicalName command) with
     | none => rfl
-    | some v =>
-      cases v with
-      | none => rfl
-      | some ps => simp only; split <;> simp
+    | some e =>
+      obtain ⟨ev, ps⟩ := e
+      simp only
+      split <;> simp
+
+/-! ### the live store and the registry value say the same -/
+
+/-- what the live store says is exactly what `supybot.commands.disabled` lists -/
+def Coh (s : OwnerSt) : Prop :=
+  (∀ k, evK s.store k = s.conf.contains (none, k)) ∧ (∀ k p, forK s.store k p = s.conf.contains (some p, k))
+
+/-- the names in the registry value are canonical (they went through `canonicalName`) -/
+def CanonConf (conf : List ConfName) : Prop :=
+  ∀ e ∈ conf, canonicalName e.2 = e.2 ∧ ∀ p, e.1 = some p → canonicalName p = p
+
+theorem contains_insert (l : List ConfName) (x y : ConfName) :
+    (if l.contains x then l else l ++ [x]).contains y = (l.contains y || decide (y = x)) := by
+  by_cases h : l.contains x = true
+  · rw [if_pos h]
+    by_cases hy : y = x
+    · subst hy; rw [h]; simp
+    · simp [hy]
+  · rw [if_neg h]
+    by_cases hy : y = x <;> simp [List.contains_append, hy]
+
+theorem contains_erase (l : List ConfName) (x y : ConfName) :
+    (l.filter fun z => z ≠ x).contains y = (l.contains y && !decide (y = x)) := by
+  by_cases hy : y = x
+  · subst hy; simp
+  · simp [hy]
+
+theorem coh_step_disable (s : OwnerSt) (pl : Option Str) (c : Str) (h : Coh s) :
+    Coh ⟨s.store.add c pl, if s.conf.contains (confName pl c) then s.conf else s.conf ++ [confName pl c]⟩ := by
+  rw [add_eq_step]
+  constructor
+  · intro k
+    rw [evK_step, contains_insert, ← h.1 k]
+    cases pl with
+    | none => by_cases hk : k = canonicalName c <;> simp [confName, hk]
+    | some p => simp [confName]
+  · intro k q
+    rw [forK_step, contains_insert, ← h.2 k q]
+    cases pl with
+    | none => simp [confName]
+    | some p =>
+      by_cases hk : k = canonicalName c ∧ q = canonicalName p
+      · obtain ⟨rfl, rfl⟩ := hk; simp [confName]
+      · have : ¬ ((some q, k) : ConfName) = (some (canonicalName p), canonicalName c) := by
+          intro e; injection e with e1 e2; injection e1 with e1; exact hk ⟨e2, e1⟩
+        simp [confName, hk, this]
+
+theorem coh_step_enable (s : OwnerSt) (pl : Option Str) (c : Str) (h : Coh s) :
+    Coh ⟨(s.store.remove c pl).getD s.store, s.conf.filter fun x => x ≠ confName pl c⟩ := by
+  rw [remove_eq_step]
+  constructor
+  · intro k
+    rw [evK_step, contains_erase, ← h.1 k]
+    cases pl with
+    | none => by_cases hk : k = canonicalName c <;> simp [confName, hk]
+    | some p => simp [confName]
+  · intro k q
+    rw [forK_step, contains_erase, ← h.2 k q]
+    cases pl with
+    | none => simp [confName]
+    | some p =>
+      by_cases hk : k = canonicalName c ∧ q = canonicalName p
+      · obtain ⟨rfl, rfl⟩ := hk; simp [confName]
+      · have : ¬ ((some q, k) : ConfName) = (some (canonicalName p), canonicalName c) := by
+          intro e; injection e with e1 e2; injection e1 with e1; exact hk ⟨e2, e1⟩
+        simp [confName, hk, this]
+
+theorem coh_fromConf : ∀ (conf : List ConfName), CanonConf conf → Coh ⟨fromConf conf, conf⟩
+  | [], _ => ⟨fun _ => rfl, fun _ _ => rfl⟩
+  | (pl, k) :: rest, hc => by
+    have ih := coh_fromConf rest (fun e he => hc e (by simp [he]))
+    obtain ⟨hk, hp⟩ := hc (pl, k) (by simp)
+    simp only at hk hp
+    have ih1 : ∀ k', evK (fromConf rest) k' = rest.contains (none, k') := ih.1
+    have ih2 : ∀ k' q, forK (fromConf rest) k' q = rest.contains (some q, k') := ih.2
+    rw [fromConf, add_eq_step]
+    cases pl with
+    | none =>
+      constructor
+      · intro k'
+        simp only [evK_step, hk, ih1]
+        by_cases e : k' = k
+        · subst e; simp
+        · simp [e]
+      · intro k' q
+        simp only [forK_step, ih2]
+        simp
+    | some p =>
+      constructor
+      · intro k'
+        simp only [evK_step, ih1]
+        simp
+      · intro k' q
+        simp only [forK_step, hk, hp p rfl, ih2]
+        by_cases e : k' = k ∧ q = p
+        · obtain ⟨rfl, rfl⟩ := e; simp
+        · have : ¬ (q = p ∧ k' = k) := fun ⟨a, b⟩ => e ⟨b, a⟩
+          simp [e, this]
 end C14
